@@ -87,6 +87,10 @@ def explore(plugin_name, seed, tier, worker, nworkers, deadline):
                 # the implementation blew up in a place the model says cannot fail
                 r = {'applicable': False, 'model': None}
                 kind, why = 'mismatch', 'implementation crashed: ' + str(i['crash'])
+                if hasattr(plugin, 'crash_excused') and plugin.crash_excused(c, i, drv):
+                    # the harness's own resource guard fired on a case that is just as large in the model
+                    st['dist']['excused:resource-guard'] = st['dist'].get('excused:resource-guard', 0) + 1
+                    continue
             else:
                 r = next(answers)
                 kind, why = judge(plugin, c, i, r)
